@@ -181,6 +181,8 @@ def _da1(v):
 
 
 DA1_VARIANTS = ["\x1b[?1;2c", "\x1b[?64;1;2;6;9;15;16;17;18;21;22;28c", "\x1b[?6c"]
+# a long (174-byte) but well-formed DA1 reply: more than one 100-byte read is needed to drain its tail
+DA1_VARIANTS.append("\x1b[?64;" + ";".join(str(i) for i in range(1, 60)) + "c")
 
 _IMG = None
 _PNG = None
